@@ -450,6 +450,9 @@ def check_property(prop, tier, seed0):
         mod = importlib.import_module(name)
         mod.run(ev, report, tier, seed0, outdir)
 
+    if not violations and not known_seen and not os.environ.get("VERIF_KEEP_TRACES"):
+        # the raw traces of a clean run are not needed afterwards (replay files keep their own copy)
+        shutil.rmtree(os.path.join(outdir, "traces"), ignore_errors=True)
     ev["wall_s"] = round(time.time() - t0, 1)
     ev["violations"] = len(violations)
     ev["coverage"]["known_findings_seen"] = [k["id"] for k in known_seen]
